@@ -101,6 +101,7 @@ pub fn run(tier: Tier) -> ! {
     run.assume("reference = harness O(n^2) DFT / schoolbook algebra over u128; the 2^32-th root of unity 7277203076849721926 and coset shift 14293326489335486720 are pinned copies whose order is checked on every run");
     let bset = gen::boundary_set();
     let quick = run.quick();
+    let micro = run.micro();
     let mut c = Ctx { run: &mut run, fails: vec![] };
     let mut rng = crate::mon::case_rng(c.run.seed, 15_000, 0);
 
@@ -126,9 +127,9 @@ pub fn run(tier: Tier) -> ! {
     }
 
     // ---- FFT family ---------------------------------------------------------------------------
-    let max_exact = if quick { 10 } else { 11 };
-    let max_spot = if quick { 18 } else { 21 };
-    let reps = if quick { 3 } else { 6 };
+    let max_exact = if micro { 5 } else if quick { 10 } else { 11 };
+    let max_spot = if micro { 5 } else if quick { 18 } else { 21 };
+    let reps = if micro { 1 } else if quick { 3 } else { 6 };
     for lg in 0..=max_spot {
         let n = 1usize << lg;
         for rep in 0..reps {
@@ -257,8 +258,8 @@ pub fn run(tier: Tier) -> ! {
 
     // ---- polynomial algebra -------------------------------------------------------------------
     {
-        let lens: Vec<usize> = vec![0, 1, 2, 3, 4, 5, 7, 8, 9, 15, 16, 17, 31, 33, 64, 100];
-        let reps = if quick { 2 } else { 8 };
+        let lens: Vec<usize> = if micro { vec![0, 1, 2, 5, 8, 9] } else { vec![0, 1, 2, 3, 4, 5, 7, 8, 9, 15, 16, 17, 31, 33, 64, 100] };
+        let reps = if micro { 1 } else if quick { 2 } else { 8 };
         for &la in &lens {
             for &lb in &lens {
                 for rep in 0..reps {
@@ -395,8 +396,8 @@ pub fn run(tier: Tier) -> ! {
 
     // ---- interpolation ------------------------------------------------------------------------
     {
-        for n in 1..=(if quick { 20usize } else { 40 }) {
-            for rep in 0..(if quick { 2 } else { 10 }) {
+        for n in 1..=(if micro { 5usize } else if quick { 20 } else { 40 }) {
+            for rep in 0..(if micro { 1 } else if quick { 2 } else { 10 }) {
                 let mut xs: Vec<u64> = vec![];
                 while xs.len() < n {
                     let x = if rep % 2 == 0 { gen::canon_u64(&mut rng, &bset) } else { rng.gen_range(0..P) };
@@ -449,7 +450,7 @@ pub fn run(tier: Tier) -> ! {
 
     // ---- zero polynomial on coset, coset shifts ------------------------------------------------
     {
-        for n_log in 0..=(if quick { 8usize } else { 14 }) {
+        for n_log in 0..=(if micro { 3usize } else if quick { 8 } else { 14 }) {
             for rate_bits in 0..=4usize {
                 c.run.nontrivial(("zpc", n_log, rate_bits));
                 let z = match catch(|| ZeroPolyOnCoset::<F>::new(n_log, rate_bits)) {
@@ -496,7 +497,9 @@ pub fn run(tier: Tier) -> ! {
 
     // ---- bit reversal, transpose, logs ---------------------------------------------------------
     {
-        let max_lg = if quick { 19 } else { 22 };
+        // micro: the element widths are kept, the lengths stop right after each code path is entered
+        // (<= 64-entry table path, > 64 path, chunk + transpose path for even and odd logs, BIG_T path)
+        let max_lg = if micro { 8 } else if quick { 19 } else { 22 };
         for lg in 0..=max_lg {
             check_bitrev::<u8>(&mut c, "u8", lg, |i| (i as u8).wrapping_mul(31).wrapping_add((i >> 8) as u8));
             check_bitrev::<u64>(&mut c, "u64", lg, |i| (i as u64).wrapping_mul(0x9E3779B97F4A7C15));
@@ -512,14 +515,17 @@ pub fn run(tier: Tier) -> ! {
                     a
                 });
             }
-            if lg <= 9 {
+            if lg <= if micro { 7 } else { 9 } {
                 check_bitrev::<[u64; 256]>(&mut c, "[u64;256] (2 KiB)", lg, |i| [i as u64; 256]);
             }
-            if lg <= 4 {
+            if lg <= if micro { 2 } else { 4 } {
                 check_bitrev::<[u64; 2048]>(&mut c, "[u64;2048] (16 KiB, BIG_T)", lg, |i| [i as u64 + 1; 2048]);
             }
         }
         for (rows, cols) in [(1usize, 1usize), (1, 7), (7, 1), (3, 5), (16, 16), (17, 33), (64, 5), (128, 257)] {
+            if micro && rows * cols > 600 {
+                continue;
+            }
             let m: Vec<Vec<u64>> = (0..rows).map(|r| (0..cols).map(|cc| (r * 1000 + cc) as u64).collect()).collect();
             c.run.eval();
             c.run.nontrivial(("transpose", rows, cols));
